@@ -106,7 +106,7 @@ def run_aconf(chk, exe, docs, rng, tag, renderings):
                 lf.write("%d %s\n" % ((1 if d["ci"] else 0) | (2 if d["ignore"] else 0), p))
                 items.append((d, m, text))
     out = os.path.join(ddir, "obs.ndjson")
-    p = subprocess.run([exe, "aconf", os.path.join(ddir, "list.txt"), out], capture_output=True, text=True, timeout=900)
+    p = subprocess.run([exe, "aconf", os.path.join(ddir, "list.txt"), out], capture_output=True, text=True, timeout=3000)
     obs = [json.loads(l) for l in open(out)] if os.path.exists(out) else []
     trace = os.path.join(ddir, "trace.ndjson")
     with open(trace, "w") as f:
@@ -198,7 +198,7 @@ def run_ini(chk, exe, docs, rng, tag, renderings):
                 lf.write(p + "\n"); items.append((d, text))
     out = os.path.join(ddir, "obs.ndjson")
     env = dict(os.environ); env.update(ENV); env.pop("QV_UNSET", None)
-    p = subprocess.run([exe, "ini", os.path.join(ddir, "list.txt"), out], capture_output=True, text=True, timeout=900, env=env)
+    p = subprocess.run([exe, "ini", os.path.join(ddir, "list.txt"), out], capture_output=True, text=True, timeout=3000, env=env)
     obs = [json.loads(l) for l in open(out)] if os.path.exists(out) else []
     trace = os.path.join(ddir, "trace.ndjson")
     with open(trace, "w") as f:
